@@ -37,7 +37,7 @@ class Harness:
         self.max_query_s = max(self.max_query_s, dt)
         return r
 
-    def prove(self, label, assumptions, goal, model_vars=None, native=None, replay_harness=None, timeout_ms=60000, detail=""):
+    def prove(self, label, assumptions, goal, model_vars=None, native=None, replay_harness=None, timeout_ms=60000, detail="", dump=None):
         """goal must hold under assumptions: asks for a model of assumptions ∧ ¬goal."""
         st = self.stat(label)
         st["checked"] += 1
@@ -58,6 +58,13 @@ class Harness:
             for v in (model_vars or []):
                 mv[str(v)] = str(m.eval(v, model_completion=True))
             viol = {"harness": self.name, "label": label, "kind": "assert", "model": mv, "detail": detail}
+            if dump is not None:
+                # model-level counterexample (SQL cannot be executed here): re-evaluate the goal on the concrete
+                # instance and keep the instance so that it can be run on a PostgreSQL elsewhere
+                ok = z3.is_false(m.eval(goal, model_completion=True))
+                viol["concrete_check"] = "reproduced" if ok else "not-reproduced"
+                viol["concrete_detail"] = dump(m)
+                viol["sql_replayed_on_postgres"] = False
             if native is not None:
                 viol["native"] = native(m)
             if replay_harness:
@@ -93,3 +100,65 @@ class Harness:
 
 def write(out, harnesses, errors=None):
     json.dump({"harnesses": [h.result() for h in harnesses], "errors": errors or []}, open(out, "w"), indent=1)
+
+
+# ----------------------------------------------------------------------------------------------
+# sqlcap: the SQL the real store sends (captured by a native go test with a recording driver)
+
+import os, subprocess, tempfile
+
+VERIF = os.path.dirname(os.path.dirname(os.path.abspath(__file__)))
+
+
+def capture_sql(repo):
+    """runs harness/sqlcap/sqlcap_test.go as an overlay test of internal/storage/ledger in `repo`; returns the records"""
+    d = tempfile.mkdtemp(prefix="sqlcap-")
+    try:
+        ov = os.path.join(d, "overlay.json")
+        out = os.path.join(d, "out.jsonl")
+        json.dump({"Replace": {os.path.join(repo, "internal/storage/ledger/zz_verif_sqlcap_test.go"): os.path.join(VERIF, "harness/sqlcap/sqlcap_test.go")}}, open(ov, "w"))
+        env = dict(os.environ, GOFLAGS="-mod=mod", GOPROXY="off", VERIF_SQLCAP_OUT=out)
+        env.pop("GOTOOLCHAIN", None) if env.get("GOTOOLCHAIN") == "local" else None
+        env.pop("GOSUMDB", None) if env.get("GOSUMDB") == "off" else None
+        p = subprocess.run(["go", "test", "-vet=off", "-count=1", "-overlay", ov, "-run", "^TestVerifSQLCap$", "./internal/storage/ledger/"],
+                           cwd=repo, env=env, capture_output=True, text=True, timeout=900)
+        if p.returncode != 0 or not os.path.exists(out):
+            raise RuntimeError("sqlcap failed: " + (p.stdout + p.stderr)[-2000:])
+        return [json.loads(l) for l in open(out)]
+    finally:
+        import shutil
+        shutil.rmtree(d, ignore_errors=True)
+
+
+def pick(records, name, **cfg):
+    out = []
+    for r in records:
+        if r["name"] != name:
+            continue
+        if all(r["config"].get(k) == v for k, v in cfg.items()):
+            out.append(r)
+    return out
+
+
+def dump_tables(tables):
+    """returns a function model -> {table: [rows]} listing the present rows of symbolic tables"""
+    def f(m):
+        out = {}
+        for name, rel in tables.items():
+            rows = []
+            for r in rel.rows:
+                if z3.is_true(m.eval(r.guard, model_completion=True)):
+                    row = {}
+                    for (q, c), v in zip(rel.cols, r.vals):
+                        if z3.is_true(m.eval(v.null, model_completion=True)):
+                            row[c] = None
+                        elif v.kind in ("int", "str", "bool"):
+                            row[c] = str(m.eval(v.z, model_completion=True))
+                        elif v.kind == "comp":
+                            row[c] = {k: str(m.eval(x.z, model_completion=True)) for k, x in v.z.items()}
+                        elif v.kind == "json":
+                            row[c] = {k: str(m.eval(val, model_completion=True)) for k, (pres, val) in v.z.items() if z3.is_true(m.eval(pres, model_completion=True))}
+                    rows.append(row)
+            out[name] = rows
+        return out
+    return f
